@@ -41,8 +41,12 @@ class Prog:
     """a program plus its model: 'units' = list of (key, [element histories]) in the order their measurements happen and
     their scopes end; every unit contributes one outcome per exit."""
 
-    def __init__(self, name, src, units, echoes=0):
+    def __init__(self, name, src, units, echoes=0, aliases=None):
         self.name, self.src, self.units, self.echoes = name, src, units, echoes
+        self.aliases = aliases or {}      # other acceptable table names for a variable (e.g. declaring class vs dynamic class) -> canonical
+
+    def canon(self, d):
+        return {self.aliases.get(k, k): v for k, v in d.items()}
 
     def expected(self, outcomes):
         """per-evaluator tracked counts for one shot given the measurement outcomes of that shot in order"""
@@ -132,6 +136,18 @@ def programs(prep):
                 "class Nd { public Nd next; public T held; public constructor() -> Nd { this.next = null; this.held = null; } }\n") % fbody2
         progs.append(Prog("field-owned-by-dropped-cycle:%s" % h, clsC + "function main() -> void { %sNd a = new Nd(); Nd b = new Nd(); a.next = b; b.next = a; a.held = new T(); a.held.go(); a = null; b = null; echo(\"e\"); }" % pad,
                           [("T.q", [h])], 1))
+    # a tracked field inherited from a base class by a subclass that adds only classical members / its own qubit / nothing
+    for h in HIST:
+        fb, _ = hist_stmts("this.q", h, prep)
+        base = "class TB { @tracked public qubit q; public constructor() -> TB = default; public function go() -> void { %s } }\n" % fb
+        subs = {"adds-int": "class TS extends TB { public int k = 0; public constructor() -> TS { super(); } }\n",
+                "adds-nothing": "class TS extends TB { public constructor() -> TS { super(); } }\n",
+                "adds-qubit": "class TS extends TB { public qubit own; public constructor() -> TS { super(); } }\n",
+                "two-levels": "class TM extends TB { public int m = 1; public constructor() -> TM { super(); } }\nclass TS extends TM { public int k = 0; public constructor() -> TS { super(); } }\n"}
+        for sn, scls in subs.items():
+            for dn, dsrc in {"scope": "{ TS t = new TS(); t.go(); }", "null": "TS t = new TS(); t.go(); t = null;", "base-typed": "TB t = new TS(); t.go(); t = null;"}.items():
+                progs.append(Prog("inherited-field:%s:%s:%s" % (sn, dn, h), base + scls + "function main() -> void { %s%s echo(\"e\"); }" % (pad, dsrc), [("TS.q", [h])], 1,
+                                  aliases={"TB.q": "TS.q", "TM.q": "TS.q"}))
     progs.append(Prog("array-measure-all", "function main() -> void { %s@tracked qubit[2] r; %s(r[0]); %s(r[1]); measure r; }" % (pad, prep or "z", prep or "z"), [("qubit[] r", ["M", "M"])]))
     progs.append(Prog("untracked", "function main() -> void { qubit q; measure q; echo(\"e\"); }", [], 1))
     return progs
@@ -151,7 +167,7 @@ def _eval_one(p):
         except StopIteration:
             bad.append((script, "the program performed %d measurements, the model expects %d" % (len(outs), p.nmeasure())))
             continue
-        if rec["tracked"] != exp:
+        if p.canon(rec["tracked"]) != exp:
             bad.append((script, "tracked counts of one execution are %r, expected %r (measurement outcomes %s)" % (rec["tracked"], exp, outs)))
     return p.name, p.src, bad, len(runs), capped
 
@@ -209,6 +225,7 @@ def _cli_one(item):
     bad = []
     neff = nann if nann is not None else (nflag if nflag is not None else None)
     shots, tables, other = parse_tables(rec["stdout"])
+    tables = p.canon(tables)
     # every draw takes the default branch: outcome 0 where possible, so the model's outcomes are all 0 unless certain 1
     per_shot = p.expected([0] * p.nmeasure()) if p.prep_free_zero else None
     if neff is None:
@@ -280,7 +297,7 @@ def main(tier):
                 # all measurements return 1: wrap expected()
                 base = p.expected
                 p.expected = (lambda b: (lambda outs: b([1] * len(outs))))(base)
-        sel = ps if tier == "thorough" else [p for p in ps if p.name.split(":")[0] in ("main", "for2", "helper2", "field-overwrite", "field-null", "two-sites", "array-measure-all", "block", "untracked", "field-reuse", "local-after-release", "borrow-array-after", "borrow-qubit", "stale-handle-then-tracked", "stale-handle-then-tracked-field", "field-owned-by-dropped-cycle") or p.name.startswith("array:M")]
+        sel = ps if tier == "thorough" else [p for p in ps if p.name.split(":")[0] in ("main", "for2", "helper2", "field-overwrite", "field-null", "two-sites", "array-measure-all", "block", "untracked", "field-reuse", "local-after-release", "borrow-array-after", "borrow-qubit", "stale-handle-then-tracked", "stale-handle-then-tracked-field", "field-owned-by-dropped-cycle", "inherited-field") or p.name.startswith("array:M")]
         modes = [("none", None, None)] + [("flag", n, None) for n in (1, 2, 3)] + [("ann", None, n) for n in (1, 2, 3)] + [("both-eq", 2, 2), ("both-diff", 3, 2), ("both-diff", 1, 3), ("both-diff", 2, 1)]
         echos = [None, "auto", "all", "none"]
         for p in sel:
